@@ -84,6 +84,7 @@ def run(tier, report):
         spec3.max_variants = 1
         spec3._roots = [('empty-lowered-thresholds', {}, []), ('mixed-holes-lowered-thresholds', {}, ROOT_PREFIXES['mixed-holes'])]
         spec3.thresholds = (1, 3)
+        spec3.listdir_order = 'reversed'     # os.listdir answers in reverse-sorted order in this pass (environment answer)
         sub = Report('C02', tier, LEVEL)
         explore(spec3, sub)
         report.violations += sub.violations
